@@ -23,14 +23,16 @@ def lsmlComparisonLoss {d} (M : Mat K d d) (quads : List (Vec K d × Vec K d × 
 def lsmlLoss {d} (M priorInv : Mat K d d) (logdetM : K) (quads : List (Vec K d × Vec K d × K)) : K :=
   lsmlComparisonLoss M quads + (frob M priorInv - logdetM)
 
-/-- `_gradient`: `M₀⁻¹ − M⁻¹ + Σ_violated w_i[(1 − √(d_cd/d_ab)) v_ab v_abᵀ + (1 − √(d_ab/d_cd)) v_cd v_cdᵀ]` -/
+/-- `_gradient`: `M₀⁻¹ − M⁻¹ + Σ_violated w_i[(1 − √(d_cd/d_ab)) v_ab v_abᵀ + (1 − √(d_ab/d_cd)) v_cd v_cdᵀ]`; the second
+summand is left out when `d_cd = 0` (`grad_cd = … if dcd > 0 else 0.`: a comparison whose second pair is one point) -/
 def lsmlGradient {d} (M priorInv Minv : Mat K d d) (quads : List (Vec K d × Vec K d × K)) : Mat K d d :=
   fun a b =>
     quads.foldl (fun acc (vab, vcd, w) =>
       let dab := quadForm M vab
       let dcd := quadForm M vcd
       if dcd < dab then
-        acc + w * ((1 - ScalarT.sqrt (dcd / dab)) * (vab a * vab b) + (1 - ScalarT.sqrt (dab / dcd)) * (vcd a * vcd b))
+        acc + w * ((1 - ScalarT.sqrt (dcd / dab)) * (vab a * vab b) +
+          (if 0 < dcd then (1 - ScalarT.sqrt (dab / dcd)) * (vcd a * vcd b) else 0))
       else acc) (priorInv a b - Minv a b)
 
 /-- eigenvalue flooring: `V · max(w, 1e-8) · Vᵀ` -/
